@@ -113,20 +113,21 @@ func normKey(s string) string {
 // panicKey names the vFlow function in which a panic was raised.
 func panicKey(stack, val string) string {
 	fn := "?"
-	for _, l := range strings.Split(stack, "\n") {
-		if strings.HasPrefix(l, "github.com/EdgeCast/vflow/") && !strings.Contains(l, "/verifsim/") {
+	ls := strings.Split(stack, "\n")
+	for i := 0; i+1 < len(ls); i++ {
+		l, file := ls[i], ls[i+1]
+		if !strings.HasPrefix(strings.TrimSpace(file), "/") {
+			continue
+		}
+		if strings.Contains(file, "zz_verif") || strings.Contains(file, "/verifsim/") || !strings.Contains(file, "/src/") {
+			continue
+		}
+		if strings.HasPrefix(l, "github.com/EdgeCast/vflow/") || strings.HasPrefix(l, "main.") {
 			fn = l
-			if i := strings.LastIndex(fn, "("); i > 0 {
-				fn = fn[:i]
+			if j := strings.LastIndex(fn, "("); j > 0 {
+				fn = fn[:j]
 			}
 			fn = strings.TrimPrefix(fn, "github.com/EdgeCast/vflow/")
-			break
-		}
-		if strings.HasPrefix(l, "main.") && !strings.Contains(l, "verif") && !strings.HasPrefix(l, "main.runPipe") && !strings.HasPrefix(l, "main.exec") {
-			fn = l
-			if i := strings.LastIndex(fn, "("); i > 0 {
-				fn = fn[:i]
-			}
 			break
 		}
 	}
